@@ -412,10 +412,6 @@ impl SyncResponder {
         // descend through the graph.
         have_locations.sort_by_key(|loc| core::cmp::Reverse(loc.max_cut));
 
-        // Index into have_locations: everything before this has max_cut above
-        // the current segment's longest_max_cut and can be skipped.
-        let mut have_cursor: usize = 0;
-
         // heads queue: segments to process, popped by highest max_cut.
         let heads = buffers.primary.get();
 
@@ -474,17 +470,15 @@ impl SyncResponder {
                 continue;
             }
 
-            // Advance have_cursor past locations with max_cut above this
-            // segment's longest_max_cut — they've already been passed.
+            // Skip have_locations with max_cut above this segment's
+            // longest_max_cut. The start is found per segment: a long
+            // segment is popped again through a branch point in its middle
+            // after segments with a lower longest_max_cut were processed.
             let longest = segment.longest_max_cut()?;
-            while have_locations
-                .get(have_cursor)
-                .is_some_and(|h| h.max_cut > longest)
-            {
-                have_cursor = have_cursor
-                    .checked_add(1)
-                    .assume("index must not overflow")?;
-            }
+            let have_cursor = have_locations
+                .iter()
+                .position(|h| h.max_cut <= longest)
+                .unwrap_or(have_locations.len());
 
             // Look for a have_location in this segment: same SegmentIndex
             // with max_cut within shortest_max_cut..=longest_max_cut.
